@@ -260,7 +260,8 @@ CHECKS = {
         "and a date; the C08 templates (every pattern of missing values, symbolic layout) through both loaders - "
         "same outcome, items, placeholders and errors list; text 'a = x<c> <sep>b = 2<sep>END' with symbolic characters "
         "through both entry points with the same parser= / grammar= / decoder= arguments (7 combinations). "
-        "The third-party multidict executes concretely because names are concrete. Outside: longer free text.",
+        "The third-party multidict executes concretely because names are concrete. Outside: longer free text, quoted "
+        "strings with three free characters (loader side in C03), reals written with exponents beyond 29.",
    ref='5 (C19)', technique='differential symbolic execution (symx) of pvl.new vs pvl loaders/dumpers on templates with symbolic parts; z3'),
  'C20': dict(
    text="Bounded symbolic execution of the reachable kernels of the two tools. pvl_validate.pvl_flavor on the real "
